@@ -30,6 +30,13 @@ except Exception:  # pragma: no cover
         pass
 
 
+class TaskError:
+    """Result slot of a task (chunk) that raised in its worker; re-raised where the caller collects that result."""
+
+    def __init__(self, exc: BaseException):
+        self.exc = exc
+
+
 class _Worker:
     def __init__(self, world: "World", name: str):
         self.name = name
@@ -132,7 +139,7 @@ class World:
 
     def run_pool(self, tasks: List[Tuple[Callable, tuple, dict]], n_workers: int, kind: str,
                  dumps: Callable[[Any], bytes], fresh_workers: bool,
-                 batches: Optional[List[Tuple[int, int]]] = None) -> Tuple[List[Any], List[int]]:
+                 batches: Optional[List[Tuple[int, int]]] = None, capture: bool = False) -> Tuple[List[Any], List[int]]:
         """Execute tasks on simulated workers. Returns (results by index, completion order of indices)."""
         sim = self.sim
         n = len(tasks)
@@ -186,10 +193,18 @@ class World:
             try:
                 items = pickle.loads(payloads[bi])
                 outs = []
+                failed = None
                 for (f, args, kwargs) in items:
                     sim.step()
-                    outs.append(f(*args, **kwargs))
-                back = pickle.loads(dumps(outs))
+                    if not capture:
+                        outs.append(f(*args, **kwargs))
+                        continue
+                    try:
+                        outs.append(f(*args, **kwargs))
+                    except Exception as e:  # as a real pool: the chunk's result IS the exception, delivered when it is collected
+                        failed = TaskError(e)
+                        break
+                back = [failed] * len(items) if failed is not None else pickle.loads(dumps(outs))
                 del items, outs
                 if self.pool_cfg.get("gc_p", 0.0) > 0 and self.rng.random() < self.pool_cfg["gc_p"]:
                     w.alloc.collect()
@@ -331,8 +346,15 @@ def make_pool(world: World):
                 return iter([])
             batches = [(i, min(len(tasks), i + chunksize)) for i in range(0, len(tasks), chunksize)]
             world.sim.probe("process_pool_used")
-            res, comp = world.run_pool(tasks, self._n, "ppe", pickle.dumps, fresh_workers=self._ws, batches=batches)
-            return iter(res)
+            res, comp = world.run_pool(tasks, self._n, "ppe", pickle.dumps, fresh_workers=self._ws, batches=batches, capture=True)
+
+            def collect() -> Iterator[Any]:
+                # results come back lazily and in order; the first failed one raises and ends the stream
+                for r in res:
+                    if isinstance(r, TaskError):
+                        raise r.exc
+                    yield r
+            return collect()
 
         def submit(self, fn: Callable, /, *args: Any, **kwargs: Any) -> cf.Future:
             if self._shutdown:
